@@ -1160,6 +1160,24 @@ func init() {
 		p.Lookup(sh, "..")
 		p.S.WaitIdle()
 		p.T.Emit(TakeSnap(p.S, "run", true))
+		// a moved directory moved on, over an empty directory of a third parent: the link counts are stale by now (the
+		// finding), but no count of a live directory may reach zero - every directory must still answer
+		e := p.Mkdir(p.Root, "e").RFh
+		f := p.Mkdir(p.Root, "f").RFh
+		g := p.Mkdir(p.Root, "g").RFh
+		p.Mkdir(e, "m")
+		p.Mkdir(g, "n")
+		p.Rename(e, "m", f, "m")
+		p.Rename(f, "m", g, "n")
+		for _, d := range []string{e, f, g} {
+			p.Getattr(d)
+			p.Lookup(d, ".")
+		}
+		p.Lookup(g, "n")
+		p.Enumerate(p.Root, true, 8192, 6)
+		p.Create(f, "file")
+		p.S.WaitIdle()
+		p.T.Emit(TakeSnap(p.S, "run", true))
 	}})
 	// A crash in the middle of freeing leaves a half-freed inode; the number is handed out again by the next CREATE,
 	// which must complete the freeing first (getAlloc: abort, DoShrink, retry) without losing the number or any block.
@@ -1462,6 +1480,22 @@ func init() {
 		p.S.WaitIdle()
 		p.T.Emit(TakeSnap(p.S, "run", true))
 		p.Tail()
+	}})
+	// Known finding KF-D20 continued (reported by a seeding sub-agent): the moved directory's ".." still names its old
+	// parent; once that parent's stale link count has been brought down (another directory moved in and removed there) the
+	// old parent can be removed and its inode is freed - LOOKUP of ".." in the moved directory then finds an entry that names
+	// a free inode and getInodesLocked retries for ever. Last in the list: the request keeps one goroutine spinning.
+	Probes = append(Probes, Probe{"lookup-dotdot-of-a-moved-directory-whose-old-parent-was-freed", []string{"C11", "C06"}, 0, func(p *P) {
+		a := p.Mkdir(p.Root, "a").RFh
+		sub := p.Mkdir(a, "sub").RFh
+		b := p.Mkdir(p.Root, "b").RFh
+		p.Mkdir(b, "t")
+		p.Rename(a, "sub", b, "sub") // a keeps the link of sub's ".."
+		p.Rename(b, "t", a, "t")     // t's link stays with b
+		p.Rmdir(a, "t")              // gives a link of a back: a's count is 1 again although sub's ".." names it
+		p.Rmdir(p.Root, "a")         // a is freed
+		p.Getattr(a)
+		p.Lookup(sub, "..")
 	}})
 }
 
